@@ -57,6 +57,9 @@ PATTERNS = [
 ]
 
 
+BUILTIN_ANNOTATION_KINDS = ('Omitted', 'Deprecated', 'Preview', 'RedactedBlot', 'RedactedHash')
+
+
 class Cfg:
     """Feature switches selecting sub-domains per property."""
 
@@ -504,6 +507,19 @@ class Builder:
                                   max_rank=self.rank[me])
             d['type'] = t
             d['annots'] = self.pick_annotations(ns, self.alias_redactable(t), is_alias_def=True)
+            if self.cfg.annot_bias and self.cfg.custom_annotations and g.p(40):
+                # custom annotations of several annotation types on one alias: the backends collect
+                # them per annotation type (sets / dicts on the way)
+                by_type = {}
+                for a in self.visible_annotations(ns):
+                    if a[2] == 'custom':
+                        by_type.setdefault(tuple(self.idx.get(a[0], a[1])['atype']), a)
+                if len(by_type) >= 2:
+                    kinds = g.subset(sorted(by_type), 70)
+                    if len(kinds) < 2:
+                        kinds = sorted(by_type)[:2]
+                    keep = [a for a in d['annots'] if self.annotation_kind(a) in BUILTIN_ANNOTATION_KINDS]
+                    d['annots'] = keep + [(by_type[k][0], by_type[k][1]) for k in kinds]
 
     def alias_redactable(self, t):
         """test_annotations: 'A redactor has already been defined' anywhere along the chain;
@@ -711,10 +727,12 @@ class Builder:
             taken = self.names_in_family(ns['name'], d)
             # descendants generated earlier cannot exist (rank order), so `taken` suffices
             if d['k'] == 'struct':
+                # a child that only adds optional fields: whatever it requires, it requires through its ancestors
+                only_optional = bool(d.get('parent')) and cfg.union_struct_bias and g.p(35)
                 for _ in range(g.int(0, cfg.max_fields)):
                     name = self.namer.fresh(SNAKE, taken, extra_ok=lambda s: s not in RESERVED_SNAKE)
                     red_aliases = [('alias', n_, a_['name']) for n_, a_ in self.visible(ns, ('alias',))
-                                   if a_['type'] is not None and self.has_redactor(a_['annots'])] \
+                                   if a_['type'] is not None and (self.has_redactor(a_['annots']) or len(a_['annots']) >= 2)] \
                         if cfg.annot_bias else []
                     if red_aliases and g.p(35):
                         a_ = g.choice(red_aliases)
@@ -728,6 +746,8 @@ class Builder:
                                       ('map', prim('String'), base), ('nullable', ('list', base, None, None))])
                     else:
                         t = self.gen_type(ns, g.int(0, cfg.type_depth))
+                    if only_optional and not self.idx.is_nullable(t):
+                        t = ('nullable', t)
                     f = {'name': name, 'type': t, 'doc': None, 'default': None, 'annots': []}
                     self.maybe_default(ns, f)
                     f['annots'] = self.pick_annotations(ns, self.redactable(t))
@@ -738,7 +758,7 @@ class Builder:
                 for _ in range(g.int(0 if d['parent'] else 1, cfg.max_fields)):
                     name = self.namer.fresh(TAG_WORDS, taken, extra_ok=lambda s: s not in RESERVED_SNAKE)
                     red_aliases = [('alias', n_, a_['name']) for n_, a_ in self.visible(ns, ('alias',))
-                                   if a_['type'] is not None and self.has_redactor(a_['annots'])] \
+                                   if a_['type'] is not None and (self.has_redactor(a_['annots']) or len(a_['annots']) >= 2)] \
                         if cfg.annot_bias else []
                     if red_aliases and g.p(25):
                         a_ = g.choice(red_aliases)
